@@ -139,6 +139,11 @@ type Env07 struct {
 	EnvNoise     int    `json:"env_noise,omitempty"` // which set of unrelated ambient variables (HOME, USER, LANG, TMPDIR, ...) is installed
 	Hostname     string `json:"hostname,omitempty"`  // child only: host name inside a private UTS namespace
 	Relocate     bool   `json:"relocate,omitempty"`  // build from a second copy of the tree at another path, created in reverse order
+	// RelocName: name of the directory the second copy lives in ("" = a plain
+	// name): a directory may be called anything, e.g. contain characters that
+	// mean something in a glob pattern. Not used with absolute source paths
+	// (there the name would be part of the configuration).
+	RelocName string `json:"reloc_name,omitempty"`
 }
 
 type C07Plan struct {
@@ -186,6 +191,7 @@ type Switch struct {
 
 type C12Plan struct {
 	AltConfig    string   `json:"alt_config,omitempty"` // the independently built settings (config index 1): a variant with other name, description and one more file, so that cross-talk between the two shows in the bytes
+	AltFails     bool     `json:"alt_fails,omitempty"`  // the independently built settings reference a missing script: their packagings fail part-way
 	NConfigs     int      `json:"n_configs"`
 	Clients      []Client `json:"clients"`
 	Mode         string   `json:"mode"` // baton | free
